@@ -299,7 +299,14 @@ def _call_worker(payload):
     try:
         import os
         mod = S.load_source(S.HEADER + CALL_SRC + f"# worker {os.getpid()}\n", "c18")
-        fn = getattr(mod, fname)
+        passthrough = fname.startswith("ir_passthrough")
+        if passthrough:
+            # an IR function (builder.build_function) one of whose outputs IS one of its inputs; called on GRAPH INPUTS directly
+            from onnxscript._internal import builder as B_
+            fn = B_.build_function(lambda op_, a, c: (op_.Relu(a), c), [ir.Value(name="a"), ir.Value(name="c")], domain="vp.d", name="F",
+                                   opset_imports={"": 18})
+        else:
+            fn = getattr(mod, fname)
         protos = []
         for how in ("call", "call_inline"):
             g = ir.Graph(name=f"g_{how}", inputs=[], outputs=[], nodes=[], opset_imports={"": 18})
@@ -309,18 +316,25 @@ def _call_worker(payload):
             gb = onnxscript.GraphBuilder(g)
             t = gb.op.Add(x, lits[0])
             args = [t] if fname != "scale_shift" else [t, lits[1] if lit_arg else y]
+            if passthrough:
+                args = [x, y] if fname == "ir_passthrough" else [x, x]
             res = getattr(gb.op, how)(fn, *args, **kwargs)
             res = list(res) if isinstance(res, (tuple, list)) else [res]
             out = gb.op.Mul(res[0], lits[1])
             g.outputs.append(out)
             if len(res) > 1:
-                g.outputs.append(res[1])
+                # (the passthrough hosts must not return a graph input directly themselves)
+                g.outputs.append(gb.op.Neg(res[1]) if passthrough else res[1])
             m = ir.Model(g, ir_version=10)
             for f in gb.functions.values():
                 m.functions[f.identifier()] = f
             mp = ir.to_proto(m)
             for p in W.check_model(mp):
+                if passthrough and how == "call" and "returned directly" in p:
+                    continue   # the user-supplied function F itself returns its input: not the builder's doing
                 rec["problems"].append(f"{how}: malformed: {p}")
+            if [i.name for i in mp.graph.input] != ["x", "y"]:
+                rec["problems"].append(f"{how}: graph inputs renamed to {[i.name for i in mp.graph.input]}")
             protos.append(mp)
         inputs = {"x": fresh("x", (2,), DT.FLOAT), "y": fresh("y", (2,), DT.FLOAT)}
         r1 = I.interpret(ir.from_proto(protos[0]), inputs)
@@ -560,6 +574,7 @@ def main(tier: str, only=None) -> int:
                     calls.append((fname, kw, lits))
                     if fname == "scale_shift" and kw in ({}, {"alpha": 0.5}):
                         calls.append((fname, kw, lits, True))
+        calls += [("ir_passthrough", {}, (1.0, 2.0)), ("ir_passthrough_same_arg", {}, (1.0, 2.0))]
         call_res = list(ex.map(_call_worker, calls, chunksize=2))
     counts = {}
     solver = {"unsat": 0, "sat": 0, "unknown": 0, "queries": 0, "solver_s": 0.0}
